@@ -272,10 +272,14 @@ def main(rep):
         if cfg['mode'] == 'unique' and cfg['k'] is not None and cfg['cls'] != 'through-explainer':
             want = expected_patterns(cfg)
             got = set(r['patterns'])
-            # a per-arrival threshold test reaches every pattern under the grid; an implementation that transforms its
-            # draws (e.g. geometric waiting times) may miss a few: demand at least half of them and every symbol
-            if want is not None and (len(want & got) < max(1, (len(want) + 1) // 2)
-                                     or set(''.join(want)) - set(''.join(got))):
+            # a per-arrival threshold test + randrange reaches every pattern under the grid; an implementation that
+            # transforms its draws (geometric waiting times, slot derived from the same uniform) reaches fewer: demand a
+            # few of them, skips (if possible) and at least two different slots
+            syms_want, syms_got = set(''.join(want or [])), set(''.join(got))
+            slots_got = syms_got - {'-'}
+            if want is not None and (len(want & got) < max(1, min(len(want), 8) // 2)
+                                     or ('-' in syms_want and '-' not in syms_got)
+                                     or len(slots_got) < min(2, len(syms_want - {'-'}))):
                 raise choice.HarnessError(f"non-vacuity: {cfg} reached patterns {sorted(got)}, "
                                           f"missing {sorted(want - got)}")
             if cfg['cls'] == 'Uniform':
